@@ -183,11 +183,20 @@ where
         loop {
             let wait_read = async {
                 let mut buffer = self.state.take_buffer();
-                if buffer.is_empty() {
+                // an incomplete request head needs more bytes, not another parse of the same ones
+                let head_is_partial =
+                    !buffer.is_empty() && matches!(self.state, State::WaitingRequest(_));
+                if buffer.is_empty() || head_is_partial {
                     if matches!(self.state, State::RequestInProgress(_)) {
                         let _ = self.upload_tx.reserve().await;
                     }
-                    self.transport_stream.read_buf(&mut buffer).await?;
+                    let n = self.transport_stream.read_buf(&mut buffer).await?;
+                    if n == 0 && head_is_partial {
+                        return Err(io::Error::new(
+                            ErrorKind::UnexpectedEof,
+                            "Connection closed inside request headers",
+                        ));
+                    }
                 }
                 Ok(buffer)
             };
